@@ -126,6 +126,9 @@ CONTRACTS.append(Contract(
     ensures=[("non-string values pass through unchanged", "result[0] == key and implies(value is None, result[1] is None) and implies(value is not None, result[1] == value)")],
 ))
 
+from contracts import c10_options  # noqa: E402
+
+CONTRACTS += c10_options.CONTRACTS
 BOUNDED = [Bounded("c10", "harness/c10.py", descr="export/import equality and failed-change invariance on generated configs", timeout=900)]
 
 MUTANTS = [
@@ -135,3 +138,4 @@ MUTANTS = [
     ("_norm_scheme_option: non-strings returned before the salt check", CTX, "        # check for invalid options\n        if key in _forbidden_scheme_options:\n            raise KeyError(f\"{key!r} option not allowed in CryptContext configuration\")\n", "        if not isinstance(value, str):\n            return key, value\n        # check for invalid options\n        if key in _forbidden_scheme_options:\n            raise KeyError(f\"{key!r} option not allowed in CryptContext configuration\")\n", "refute"),
     ("load: harmless reordering of the last two assignments", CTX, "        self._get_record = config.get_record\n        self._identify_record = config.identify_record\n", "        self._identify_record = config.identify_record\n        self._get_record = config.get_record\n", "hold"),
 ]
+MUTANTS += c10_options.MUTANTS
